@@ -803,3 +803,28 @@ Q(name="e2_update_rem_cid", props=["C09"], func=r"connection/mod\.rs:245:1[^>]*>
   pre=lambda c: ule(c.inp("call:CidQueue::next(*_1.%d)#discr" % c.field("connection/mod.rs", "Connection", "rem_cids"), I64), bv(1)), post=urc_post,
   bounds="every result of CidQueue::next (covered by cidq_next_step): the retired sequence range is queued on the Data space and the new CID's reset token is the one handed to set_reset_token; Vec::extend / set_reset_token opaque",
   replay=("conn_update_rem_cid_native", lambda m: [dict(have_next=0), dict(have_next=1)]))
+
+
+# ------------------------------------------------------------------ C03 / C10: header decoding never advances the cursor past the end (Buf::advance panics if it would)
+def hd_post(c, p):
+    st = p.p.state
+    conj = []
+    calls = st.calls
+    for i, x in enumerate(calls):
+        if not re.search(r"as Buf>::advance$", x[0]):
+            continue
+        n = x[1][1]
+        if n[0] != "val":
+            return "false"
+        # the bound must come from `remaining()` observed on the same cursor with nothing consumed in between
+        if i == 0 or not re.search(r"as Buf>::remaining$", calls[i - 1][0]) or calls[i - 1][1][0] != x[1][0]:
+            return "false"
+        r = c.ex.read_key(_Snap(st, x[3]), calls[i - 1][2], BV64).t if not str(calls[i - 1][2]).startswith("|") else calls[i - 1][2]
+        conj.append(ule(n[1].t, r))
+    return and_(*conj)
+
+
+Q(name="e2_header_decode_advance", props=["C03", "C10"], func=r"packet\.rs:548:1[^>]*>::decode$",
+  functions=["ProtectedHeader::decode"], pre=lambda c: "true", post=hd_post, allowed_panics=r"attempt to",
+  bounds="every path of the invariant-header decoder (all header forms): each Buf::advance(n) is dominated by n <= remaining() read from the same cursor immediately before (contract of Buf::advance: panics iff n > remaining()); field reads are opaque; arithmetic-overflow panics are not decided by this query",
+  replay=("packet_header_decode_bounds_native", lambda m: [dict(first=0xc0), dict(first=0xd0), dict(first=0xe0), dict(first=0xf0), dict(first=0x40)]))
